@@ -260,6 +260,24 @@ def run_property(pid, tier, conds, meta, obligations=None, seed=0):
             problems.append("path reported passing under CrossHair fails natively (%s, %s): %s"
                             % (case["f"], sig, json.dumps(case["args"])[:300]))
 
+    # ---- positive witnesses: concrete inputs (the interesting values of each harness) run natively
+    wcases = [dict(file=os.path.join(VERIF, w["file"]), f=w["f"], args=w["args"], env=w.get("env", {}))
+              for w in meta.get("witnesses", [])]
+    res = native_replay(wcases, workdir, "witness")
+    for case, rr in zip(wcases, res):
+        nat = [x for x in rr["recs"] if x.get("k") == "fail"]
+        if rr["ret"] is True:
+            validated += 1
+        elif nat:
+            h = hashlib.sha1(json.dumps([case["f"], case["args"]], sort_keys=True).encode()).hexdigest()[:12]
+            rp = os.path.join(replay_dir, "%s-%s.json" % (pid, h))
+            json.dump({"property": pid, "file": case["file"], "f": case["f"], "args": case["args"], "env": case["env"],
+                       "signature": nat[0]["sig"], "detail": nat[0].get("detail")}, open(rp, "w"), indent=1)
+            if not any(v["sig"] == nat[0]["sig"] for v in violations):
+                violations.append({"sig": nat[0]["sig"], "replay": rp, "detail": nat[0].get("detail")})
+        elif not any(x.get("k") == "known" for x in rr["recs"]):
+            problems.append("witness %s%r did not run: %r" % (case["f"], case["args"], rr["ret"]))
+
     # ---- known findings: every listed open entry of this property is re-demonstrated natively
     listed = [e for e in load_known_file() if e.get("property") == pid]
     open_entries = [e for e in listed if e.get("status") == "open"]
